@@ -498,6 +498,35 @@ theorem C16_passthrough_limited (codec : String → Codec) (s : Server) (name : 
   rw [C16_gen_shape.1]
   simp [decoderFor, hc]
 
+/-- **`WithErrorHandler`.** A custom error handler changes nothing about *whether* the base handler runs or what it
+reads; it only decides how a rejection is answered, and it is handed the client-error status. -/
+theorem C16_error_handler (eh : Option (Nat → Nat)) (codec : String → Codec) (s : Server) (r : Request) :
+    (∀ st, serveE eh codec s r = .handled st ↔ serveS codec s r = .handled st) ∧
+    (serveE eh codec s r = .panicked ↔ serveS codec s r = .panicked) ∧
+    ((∃ st, serveE eh codec s r = .rejected st) ↔ serveS codec s r = .rejected Compression.rejectStatus) := by
+  have hrej : ∀ st, serveS codec s r = .rejected st → st = Compression.rejectStatus := by
+    intro st h
+    unfold serveS at h
+    cases hd : decoderFor s r.encoding with
+    | none => simp [hd] at h; exact h.symm
+    | some e =>
+      cases e with
+      | nilFunc => simp [hd] at h
+      | identity => simp [hd] at h
+      | lib l =>
+        simp only [hd] at h
+        split at h
+        · simp at h; exact h.symm
+        · cases h
+  unfold serveE
+  cases ho : serveS codec s r with
+  | handled st' => simp
+  | panicked => simp
+  | rejected st' =>
+    have := hrej st' ho
+    subst this
+    simp
+
 theorem C16_package_state_only_read : Compression.availableDecodersOnlyRead = true := by decide
 
 /-- **Isolation.** Whatever servers (with whatever `WithDecoder` options) were built before, the process-level
